@@ -31,6 +31,8 @@ func c12Datasets() [][]model.Row {
 		// values that are prefixes of each other and continue with characters below and above ',' (row order = the library's
 		// column-by-column order, not the order of the joined strings)
 		{{"a": "new", "b": "y"}, {"a": "new york", "b": "x"}, {"a": "new+", "b": "x"}, {"a": "new", "b": "x,1"}, {"a": "new-", "b": "y"}, {"a": "x", "b": "y"}},
+		// values with blanks such that different argument lists print alike when joined by blanks: ("x y","z") / ("x","y z")
+		{{"a": "z", "b": "x y"}, {"a": "y z", "b": "x"}, {"a": "x", "b": "z"}, {"a": "x y", "b": "y z"}, {"a": "z", "b": "x"}},
 	}
 	// a sample of the small-scope product: every dataset of exactly 2 rows over the 9 shapes of C01's space A
 	for _, d := range spaceADatasets(2) {
@@ -267,6 +269,48 @@ func c12PlayMulti(w *c12World, c c12Multi, alone map[string]string) (viol string
 	return ""
 }
 
+// c12Lexical: (1) texts with odd white space at the edges: database/sql must reject exactly what the library's parser
+// rejects; (2) arguments that are not strings ([]byte, nil, int64, float64, bool): the prepared and the direct path must
+// agree with each other (whatever rendering the driver chose).
+func c12Lexical(w *c12World, rows []model.Row, opt int, cov *rt.Coverage) (string, c12Multi) {
+	base := `a = "x" ; b`
+	for _, ws := range []string{"", " ", "\t", "\n", "\r", "\v", "\f", "\u00a0", "\u0085", "\u2003", "\ufeff", "\x00", " \n\t "} {
+		for _, txt := range []string{ws + base, base + ws, ws + base + ws} {
+			_, perr := queryparser.ParseQuery(txt)
+			got := c12One(w.db, txt)
+			cov.Add("evaluations", 1)
+			cov.Add("lexical_edge_texts", 1)
+			// (on a dataset without the columns of the base text every spelling fails at execution, like the base text)
+			if baseGot := c12One(w.db, base); (perr != nil || baseGot == "error") != (got == "error") {
+				c := c12Multi{Kind: "lexical", Rows: rows, Opt: opt, Texts: []string{txt}}
+				return fmt.Sprintf("text %q: the library's parser says %v, through database/sql it gives %s", txt, perr, got), c
+			}
+			if perr == nil && got != c12One(w.db, base) {
+				c := c12Multi{Kind: "lexical", Rows: rows, Opt: opt, Texts: []string{txt}}
+				return fmt.Sprintf("text %q returns %s, %q returns %s", txt, got, base, c12One(w.db, base)), c
+			}
+		}
+	}
+	st, err := w.db.Prepare(`a = $1 | b = $2 ; a`)
+	if err != nil {
+		return "Prepare failed: " + err.Error(), c12Multi{Kind: "lexical", Rows: rows, Opt: opt}
+	}
+	defer st.Close()
+	for _, args := range [][]any{{[]byte("x"), "y"}, {nil, "y"}, {"x", []byte("y")}, {int64(1), "2"}, {1.5, true}, {"", ""}, {[]byte{}, nil}} {
+		direct := c12One(w.db, `a = $1 | b = $2 ; a`, args...)
+		prepared := "error"
+		if r, err := st.Query(args...); err == nil {
+			prepared = c12Render(r)
+		}
+		cov.Add("evaluations", 1)
+		if direct != prepared {
+			c := c12Multi{Kind: "lexical", Rows: rows, Opt: opt, Texts: []string{`a = $1 | b = $2 ; a`}}
+			return fmt.Sprintf("arguments %#v: the prepared statement returns %s, the direct query returns %s", args, prepared, direct), c
+		}
+	}
+	return "", c12Multi{}
+}
+
 // c12Bound: texts with placeholders (also below NOT and inside nested operators) bound to different arguments in turn.
 func c12Bound(w *c12World, rows []model.Row, opt int, cov *rt.Coverage) (string, c12Multi) {
 	type tpl struct {
@@ -284,6 +328,21 @@ func c12Bound(w *c12World, rows []model.Row, opt int, cov *rt.Coverage) (string,
 		{`a = $1 | b = $1 | ^ a = $2 ; a`, func(a []any) string { return `a = ` + q(a[0]) + ` | b = ` + q(a[0]) + ` | ^ a = ` + q(a[1]) + ` ; a` }, 2},
 	}
 	vals := []any{"x", "1", "y", "2", "zz"}
+	if len(rows) > 0 && rows[0]["b"] == "x y" {
+		vals = []any{"x y", "z", "x", "y z"}
+	}
+	// wide flat operators (70 and 300 negated operands): the driver's parser must accept what the library evaluates
+	for _, w := range []int{70, 300} {
+		var k []*model.Expr
+		for i := 0; i < w; i++ {
+			k = append(k, model.Not(model.Eq("a", fmt.Sprintf("none%d", i))))
+		}
+		k = append(k, model.Eq("a", "x"))
+		for _, e := range []*model.Expr{model.And(k...), model.Or(k...)} {
+			txt := queryparser.QueryToString(&updogv1.Query{Expr: toProto(e), GroupBy: []string{"b"}})
+			tpls = append(tpls, tpl{txt, func(a []any) string { return txt }, 0})
+		}
+	}
 	for _, t := range tpls {
 		lists := anyLists(vals, t.n, t.n)
 		for _, l1 := range lists {
@@ -375,7 +434,10 @@ func c12Worker(ctx *rt.Ctx, job *rt.Job) []*rt.Violation {
 					}
 				}
 			}
-			if di < 6 {
+			if di < 7 {
+				if m, c := c12Lexical(w, rows, opt, ctx.Cov); m != "" {
+					vs = append(vs, rt.NewViolation("C12", "lexical", c.sig(), c, "%s", m))
+				}
 				if m, c := c12Overlap(w, rows, opt, ctx.Cov); m != "" {
 					vs = append(vs, rt.NewViolation("C12", "overlap", c.sig(), c, "%s", m))
 				}
@@ -410,7 +472,7 @@ func c12Run(ctx *rt.Ctx) []*rt.Violation {
 }
 
 func c12Replay(ctx *rt.Ctx, v *rt.Violation) *rt.Violation {
-	if v.Kind == "overlap" || v.Kind == "bound" {
+	if v.Kind == "overlap" || v.Kind == "bound" || v.Kind == "lexical" {
 		var c c12Multi
 		if err := json.Unmarshal(v.Case, &c); err != nil {
 			rt.Harnessf("case: %v", err)
@@ -419,6 +481,12 @@ func c12Replay(ctx *rt.Ctx, v *rt.Violation) *rt.Violation {
 		defer w.close()
 		if msg != "" {
 			return rt.NewViolation("C12", v.Kind, c.sig()+" open", c, "%s", msg)
+		}
+		if v.Kind == "lexical" {
+			if m, c2 := c12Lexical(w, c.Rows, c.Opt, rt.NewCoverage()); m != "" {
+				return rt.NewViolation("C12", v.Kind, c2.sig(), c2, "%s", m)
+			}
+			return nil
 		}
 		if m := c12PlayMulti(w, c, nil); m != "" {
 			return rt.NewViolation("C12", v.Kind, c.sig(), c, "%s", m)
